@@ -344,6 +344,9 @@ func guardOnChain(p *Program, chain []*ssa.Function, isOnward func(fn *ssa.Funct
 				for i := 0; i < 2; i++ {
 					// len(value) compared with something that is not a loop counter
 					if a.Args[i].Has(func(t *Term) bool { return mentions(fn, t) }) && !strings.Contains(a.String(), "µ") {
+						if narrowsLen(k.V, 0) {
+							continue // the length is truncated before it is compared: lengths that differ by a multiple of the narrower type's range pass
+						}
 						return true, funcName(fn) + ": " + k.String()
 					}
 				}
@@ -351,6 +354,62 @@ func guardOnChain(p *Program, chain []*ssa.Function, isOnward func(fn *ssa.Funct
 		}
 	}
 	return false, ""
+}
+
+// narrowsLen: the boolean value compares a length that went through a conversion to a narrower integer
+// type (uint16(len(x)*8)): the comparison then holds for lengths it must reject.
+func narrowsLen(v ssa.Value, depth int) bool {
+	if v == nil || depth > 8 {
+		return false
+	}
+	var hasLen func(x ssa.Value, d int) bool
+	hasLen = func(x ssa.Value, d int) bool {
+		if d > 8 {
+			return false
+		}
+		switch y := x.(type) {
+		case *ssa.Call:
+			if b, ok := y.Call.Value.(*ssa.Builtin); ok && b.Name() == "len" {
+				return true
+			}
+		case *ssa.BinOp:
+			return hasLen(y.X, d+1) || hasLen(y.Y, d+1)
+		case *ssa.Convert:
+			return hasLen(y.X, d+1)
+		case *ssa.ChangeType:
+			return hasLen(y.X, d+1)
+		}
+		return false
+	}
+	intSize := func(t types.Type) int {
+		b, ok := t.Underlying().(*types.Basic)
+		if !ok || b.Info()&types.IsInteger == 0 {
+			return 0
+		}
+		switch b.Kind() {
+		case types.Int8, types.Uint8:
+			return 1
+		case types.Int16, types.Uint16:
+			return 2
+		case types.Int32, types.Uint32:
+			return 4
+		}
+		return 8
+	}
+	switch y := v.(type) {
+	case *ssa.UnOp:
+		return narrowsLen(y.X, depth+1)
+	case *ssa.BinOp:
+		return narrowsLen(y.X, depth+1) || narrowsLen(y.Y, depth+1)
+	case *ssa.ChangeType:
+		return narrowsLen(y.X, depth+1)
+	case *ssa.Convert:
+		if a, b := intSize(y.X.Type()), intSize(y.Type()); a > 0 && b > 0 && b < a && hasLen(y.X, 0) {
+			return true
+		}
+		return narrowsLen(y.X, depth+1)
+	}
+	return false
 }
 
 func c11Guards(c *Ctx, byPath map[string]*ssa.Function) {
@@ -389,7 +448,7 @@ func c11Guards(c *Ctx, byPath map[string]*ssa.Function) {
 			return false
 		}
 		ok, where := guardOnChain(p, chain, isOnward, mentions)
-		c.Check(ok, "R3", "digest-length:"+nm, chain[2].Pos(), "digest length checked at "+where, "no function on the chain handler → RaftNode."+nm+" → Balloon."+nm+" → HyperTree.QueryMembership compares len(digest) with anything before going on: a digest of the wrong length indexes the fixed batch-cache table out of range and panics inside the request")
+		c.Check(ok, "R3", "digest-length:"+nm, chain[2].Pos(), "digest length checked at "+where, "no function on the chain handler → RaftNode."+nm+" → Balloon."+nm+" → HyperTree.QueryMembership compares len(digest) (untruncated) with anything before going on: a digest of the wrong length indexes the fixed batch-cache table out of range and panics inside the request")
 	}
 	// (b) non-empty bulk
 	if h := byPath["/events/bulk"]; h != nil {
